@@ -362,6 +362,29 @@ def cpf_encodings(rng):
     return out
 
 
+def cip_encodings(rng, corpus):
+    """(enip.command, command-specific data) pairs for the CIP machine: assembled from the wire format, and
+    the payloads of the captured frames (header length consistent with the frame)"""
+    out = []
+    out.append((0x0065, struct.pack("<HH", 1, 0)))
+    out.append((0x0066, b""))
+    for b in cpf_encodings(rng):
+        for cmd in (0x0001, 0x0004, 0x0063, 0x0064):
+            out.append((cmd, b))
+        out.append((0x006f, struct.pack("<IH", 0, 5) + b))
+        out.append((0x0070, struct.pack("<IH", 0, 5) + b))
+    known = (0x0001, 0x0004, 0x0063, 0x0064, 0x0065, 0x0066, 0x006f, 0x0070)
+    for _, pkt in corpus:
+        if len(pkt) >= 24 and u16(pkt, 2) == len(pkt) - 24 and u16(pkt, 0) in known:
+            out.append((u16(pkt, 0), pkt[24:]))
+    seen, uniq = set(), []
+    for x in out:
+        if x not in seen:
+            seen.add(x)
+            uniq.append(x)
+    return uniq
+
+
 SHARED = ("Object.parser", "Message_Router.parser", "Connection_Manager.parser", "Logix.parser")
 
 
@@ -407,7 +430,9 @@ def produced(rng):
         if len(p) == 1:
             out.append(("EPATH_single", parser.EPATH_single.produce(dd(segment=[dd(s) for s in p]))))
     for st in (dd(status=0), dd({"status": 5, "status_ext": {"size": 0, "data": []}}),
-               dd({"status": 0xff, "status_ext": {"size": 2, "data": [0x2107, 1]}})):
+               dd({"status": 1, "status_ext": {"size": 1, "data": [0x2211]}}),
+               dd({"status": 0xff, "status_ext": {"size": 2, "data": [0x2107, 1]}}),
+               dd({"status": 1, "status_ext": {"size": 3, "data": [0x2211, 0x4433, 0x6655]}})):
         out.append(("status", parser.status.produce(st)))
     vals = {"BOOL": [True, False, True], "SINT": [-1, 2, 3], "USINT": [1, 2, 3, 4], "INT": [-300, 5],
             "UINT": [1, 65535, 7], "DINT": [-70000, 1], "UDINT": [70000, 2], "LINT": [-2**40], "ULINT": [2**40, 3],
